@@ -372,7 +372,7 @@ func intsTo(n int) []int {
 	return r
 }
 
-const ruleE2E = "two verified real BitcoinNodes sharing one TxManager (request timeout 1 h) over loopback TCP, each against its own scripted peer: a drawn script of inv announcements (1..3 txids each, new / already outstanding / already delivered) and tx deliveries (solicited or not) from either peer, in one case of eight followed by one inv of 49 999..100 001 fresh txids (more than one getdata may hold); in half of the cases everything the scripted peer writes is cut into pieces of 1..100 bytes over the first 600 bytes of each send (TCP segmentation at arbitrary offsets); oracle: a getdata goes to a peer for exactly the txids that were new when that peer announced them (one getdata entry per new txid, none for a txid outstanding at the other peer or already delivered), and every delivered transaction reaches the processor exactly once; non-trivial = a txid announced by both peers; distinct = the script"
+const ruleE2E = "two verified real BitcoinNodes sharing one TxManager (request timeout 1 h) over loopback TCP, each against its own scripted peer: a drawn script of inv announcements (1..3 txids each, new / already outstanding / already delivered) and tx deliveries (solicited or not) from either peer, in one case of eight followed by one inv of 49 999..100 001 fresh txids (more than one getdata may hold); in half of the cases everything the scripted peer writes is cut into pieces of 1..100 bytes over the first 160 bytes of each send (TCP segmentation at arbitrary offsets); oracle: a getdata goes to a peer for exactly the txids that were new when that peer announced them (one getdata entry per new txid, none for a txid outstanding at the other peer or already delivered), and every delivered transaction reaches the processor exactly once; non-trivial = a txid announced by both peers; distinct = the script"
 
 func TestProp_C06_e2e(t *testing.T) {
 	col := evid.For("C06", "e2e", ruleE2E)
